@@ -125,7 +125,7 @@ def run(chk: lib.Check):
             targets += lst[: (15 if quick else 80)]
         for (clsname, name), (o, acc, n0, kind, _score) in targets:
             cls = getattr(acc, "class_", None)
-            seq_len = (8 if quick else 14) * (4 if getattr(acc, "list_extra_args", {}).get("fixed_length") else 2 if (kind in ("direct", "role") and _score[0] >= 1) else 1)
+            seq_len = (8 if quick else 14) * (4 if getattr(acc, "list_extra_args", {}).get("fixed_length") else 2 if (kind in ("direct", "role") and _score[0] >= 1) else 3 if kind in ("RequirementsRelationAccessor", "ElementRelationAccessor") else 1)
             try:
                 lst = getattr(o, name)
             except Exception:  # noqa: BLE001
@@ -139,10 +139,10 @@ def run(chk: lib.Check):
                 if kind in ("RequirementsRelationAccessor", "ElementRelationAccessor"):
                     # relation objects are found by a model-wide search for source/target; inserting an unrelated existing relation
                     # object is not a list operation these accessors define — exercised through create / del / item assignment only
-                    opk = rng.choice(["create_rel", "del", "setitem", "foreign"])
+                    opk = rng.choice(["create_rel", "del", "del", "del", "setitem", "foreign"])
                 else:
                     opk = rng.choice(["insert", "insert", "append", "del", "create", "setitem", "insert_dup", "foreign", "clear", "two_handles",
-                                      "slice_set", "slice_del", "assign"])
+                                      "slice_set", "slice_del", "assign", "delete_all"])
                 if kind in ("direct", "role") and not fixed and _score[0] >= 1 and rng.random() < 0.6:
                     opk = "insert"      # members interleaved with children of other kinds: where the position arithmetic matters
                 if fixed and rng.random() < 0.5:
@@ -276,6 +276,33 @@ def run(chk: lib.Check):
                             fop = [5, [d_.uuid for d_ in new_]]
                             setattr(o, name, new_)
                             lst = getattr(o, name)
+                    elif opk == "delete_all":
+                        if kind in ("direct", "role") or not n:
+                            continue     # deleting contained objects: C09
+                        # filters matching none, one, several adjacent and all members
+                        mode = rng.choice(["all", "xtype", "name", "uuid", "none"])
+                        objs_ = list(lst)
+                        if mode == "all":
+                            kw_ = {}
+                        elif mode == "xtype":
+                            kw_ = {"xtype": rng.choice(objs_).xtype}
+                        elif mode == "name":
+                            kw_ = {"name": getattr(rng.choice(objs_), "name", "")}
+                        elif mode == "uuid":
+                            kw_ = {"uuid": rng.choice(ref)}
+                        else:
+                            kw_ = {"uuid": "no-such-uuid"}
+                        def matches_(x):
+                            try:
+                                return all(getattr(x, k_) == v_ for k_, v_ in kw_.items())
+                            except Exception:  # noqa: BLE001
+                                return None
+                        m_ = [matches_(x) for x in objs_]
+                        if None in m_:
+                            continue
+                        desc += f".delete_all({kw_}) [{sum(m_)} of {n} match]"
+                        expected = [u_ for u_, hit in zip(ref, m_) if not hit]
+                        lst.delete_all(**kw_)
                     elif opk == "foreign":
                         other = getattr(run, "_other", None)
                         if other is None:
